@@ -212,8 +212,8 @@ fn gen_kind(rng: &mut Rng, p: &Profile) -> Kind {
         }
         5 => Kind::Exec,
         6 => Kind::Stream,
-        7 => Kind::Comp { n: rng.range(1, 6) as u8, transient: false },
-        _ => Kind::Comp { n: rng.range(2, 4) as u8, transient: true },
+        7 => Kind::Comp { n: rng.range(1, 6) as u8, transient: false, timer: if rng.chance(1, 3) { Some(*rng.pick(&[Dl::Past, Dl::Now, Dl::Ms(1), Dl::Ms(3), Dl::Ms(8), Dl::Far])) } else { None } },
+        _ => Kind::Comp { n: rng.range(2, 4) as u8, transient: true, timer: None },
     }
 }
 
@@ -242,9 +242,11 @@ fn gen_cause(rng: &mut Rng, p: &Profile, incb: bool) -> Op {
     let c = rng.below(6) as u8;
     match rng.weighted(&[8, 6, 10, 3, 2, 2, 3, 3, 3, 2, 1]) {
         0 if p.name == "C05" && rng.chance(1, 4) => Op::Wakeup,
+        0 if matches!(p.name.as_str(), "C02" | "C08") && rng.chance(1, 10) => Op::Stop,
         0 => Op::Ping(sel),
         1 if p.name == "C02" && rng.chance(1, 12) => Op::SendBurst(sel),
         1 => Op::Send(sel),
+        2 if !incb && matches!(p.name.as_str(), "C16" | "C02" | "C07") && rng.chance(1, 6) => Op::Retarget(sel, *rng.pick(&[Int::Read, Int::Read, Int::Write, Int::Both]), *rng.pick(&[Md::Level, Md::Edge, Md::OneShot])),
         2 => Op::WriteFd(sel, c),
         3 => Op::DrainFd(sel, c),
         4 => Op::FillFd(sel, c),
@@ -252,6 +254,7 @@ fn gen_cause(rng: &mut Rng, p: &Profile, incb: bool) -> Op {
         6 => Op::SetDeadline(sel, *rng.pick(&p.timer_dls)),
         7 => Op::Schedule(sel, rng.below(4) as u8),
         8 => Op::WakeTask(sel, rng.below(8) as u8),
+        9 if matches!(p.name.as_str(), "C10" | "C02") && rng.chance(1, 10) => Op::StreamBurst(sel),
         9 if rng.chance(1, 3) => Op::StreamPushSelfWake(sel),
         9 => Op::StreamPush(sel),
         _ => Op::ClosePeer(sel, c),
@@ -391,7 +394,7 @@ fn slot_reuse_scenario(rng: &mut Rng, p: &Profile) -> History {
     let newcomer = match rng.below(3) {
         0 => Kind::Gen { fd: FdKind::Pipe, int: Int::Read, md: Md::Level },
         1 => Kind::Gen { fd: FdKind::Socket, int: Int::Read, md: Md::Edge },
-        _ => Kind::Comp { n: 2, transient: false },
+        _ => Kind::Comp { n: 2, transient: false, timer: None },
     };
     let victim = match rng.below(3) {
         0 => Kind::Ping,
